@@ -35,7 +35,10 @@ CeilDiv(a, b) == (a + b - 1) \div b
 -----------------------------------------------------------------------------
 (* The outcome record of one (aggregated) request - what was computed:                                               *)
 (*   members  sequence of [id, bw, key, bidir]   the user's requests reported together (aggregatedFrom)            *)
-(*   reason   "" when served, else the blocking reason;  route  sequence of element names (<<>> when none)          *)
+(*   reason   "" when served, else the blocking reason the request carries = the FIRST one raised while it was      *)
+(*            computed;  raised  the reasons in the order the stages raised them (route, forward judgement, reverse    *)
+(*            judgement, spectrum) - a later stage must not rewrite the reason of a request already blocked          *)
+(*   route    sequence of element names (<<>> when none)                                                            *)
 (*   type, mode  transponder type and the SELECTED mode;  nm  sequence of <<N, M>> assigned (<<>> when blocked)     *)
 (*   bidir;  rx / rxRev  receiver figures of the forward / reverse propagation (micro-dB);  power (nW), powerudbm   *)
 (*   mi  library figures of (type, mode): osnr, margin, baud, bitrate, cost (centi-units)                          *)
@@ -89,6 +92,9 @@ NoPathOnlyReason(o, e) ==        \* no route / no baud rate: the entry carries t
 BlockedCarriesReason(o, e) ==    \* blocked after propagation: reason + the candidate path's properties
     (~IsServed(o) /\ HasPath(o)) =>
         e.top = <<"no-path">> /\ e.npkeys = <<"no-path", "path-properties">> /\ e.reason = o.reason /\ e.hasProps
+ReasonIsFirstRaised(o, e) ==    \* the entry carries the first blocking reason raised for the request
+    /\ o.raised # <<>> => e.reason = o.raised[1]
+    /\ o.raised = <<>> => e.reason = ""
 RouteHopByHop(o, e)     == e.hasProps => Hops(e) = o.route
 LabelsEqualNM(o, e)     == (IsServed(o) /\ e.hasProps) => Labels(e) = [j \in 1..Len(o.route) |-> o.nm]
 NoLabelWhenBlocked(o, e) == ~IsServed(o) => OfKind(e, "label") = <<>>
@@ -102,7 +108,7 @@ ReverseIffBidir(o, e)  == e.hasProps => (e.hasZA <=> o.bidir)
 ReverseFromReverseReceiver(o, e) == (e.hasZA /\ o.hasRev) => MetricsMatch(o.rxRev, e.za, MetricKeys)
 
 EntryClauses == <<"IdIsJoinedId", "BandwidthIsSum", "AggregatedOnlyIdentical", "ServedHasPathProperties",
-                  "NoPathOnlyReason", "BlockedCarriesReason", "RouteHopByHop", "LabelsEqualNM", "NoLabelWhenBlocked",
+                  "NoPathOnlyReason", "BlockedCarriesReason", "ReasonIsFirstRaised", "RouteHopByHop", "LabelsEqualNM", "NoLabelWhenBlocked",
                   "TransponderTypeAndMode", "ObjectOrder", "MetricsEqualReceiver", "ReverseIffBidir",
                   "ReverseFromReverseReceiver">>
 EntryHolds(c, o, e) ==
@@ -112,6 +118,7 @@ EntryHolds(c, o, e) ==
       [] c = "ServedHasPathProperties" -> ServedHasPathProperties(o, e)
       [] c = "NoPathOnlyReason" -> NoPathOnlyReason(o, e)
       [] c = "BlockedCarriesReason" -> BlockedCarriesReason(o, e)
+      [] c = "ReasonIsFirstRaised" -> ReasonIsFirstRaised(o, e)
       [] c = "RouteHopByHop" -> RouteHopByHop(o, e)
       [] c = "LabelsEqualNM" -> LabelsEqualNM(o, e)
       [] c = "NoLabelWhenBlocked" -> NoLabelWhenBlocked(o, e)
